@@ -20,7 +20,10 @@ From the `ast` of `src/datamodel_code_generator/__init__.py`:
   recorded (normalised: `x.rstrip()` ↦ `x`, `x or ''` ↦ `x`) so that Lean can decide that what is
   printed was checked.
 * `chdir()` is flattened into save / try / chdir / yield / finally steps, separately for the
-  `path is None` branch and the other one.
+  `path is None` branch and the other one; a file-system effect of the context manager itself (`mkdir`, open for writing,
+  `write_text`, `unlink`, … — directly or through a module-level helper) is a `mkdir` / `fsEffect` step of its table.
+* a call of a module-level function of `__init__.py` (a helper of `generate()`) contributes, before its own may-raise step,
+  the file-system effects and directory switches found in its body (nested helpers up to depth 3).
 
 * `parseCallArguments`: the arguments `generate()` passes to `parser.parse(…)` (positional ones as `<positional>`, keywords by
   name). The formatting stage (black / isort / ruff configuration discovery, isort's first-party detection) runs inside
@@ -135,7 +138,9 @@ def has_fs_effect(stmts: list[ast.stmt]) -> bool:
 
 
 class Flatten:
-    def __init__(self, literal_names: set[str]) -> None:
+    def __init__(self, literal_names: set[str], helpers: dict[str, ast.FunctionDef] | None = None, depth: int = 0) -> None:
+        self.helpers = helpers or {}   # module-level functions of __init__.py: their file-system effects are inlined at the call
+        self.depth = depth
         self.steps: list[tuple[str, str, str]] = []  # (kind, what, target)
         self.loop_vars: list[str] = []
         self.loop_iters: list[str] = []
@@ -182,6 +187,13 @@ class Flatten:
         last = name.split(".")[-1]
         lv = self.loop_vars[-1] if self.loop_vars else None
         recv = node.func.value if isinstance(node.func, ast.Attribute) else None
+        if name in self.helpers and self.depth < 3:
+            # a helper defined beside generate(): what it does to the file system (and to the working directory) happens HERE
+            sub = Flatten(set(), {k: v for k, v in self.helpers.items() if k != name}, self.depth + 1)
+            sub.block(self.helpers[name].body)
+            for k, w, _ in sub.steps:
+                if k in EFFECTS or k == "osChdir":
+                    self.emit(k, f"{name}(): {w}", "other:" + name)
         if name == "os.chdir" or last == "chdir" and name != "chdir":
             self.emit("osChdir", name)
         elif last == "mkdir" or name in ("os.makedirs", "os.mkdir"):
@@ -352,7 +364,7 @@ def key_exprs(fn: ast.FunctionDef, loop_iter: str) -> list[str]:
     return sorted(set(out))
 
 
-def chdir_tables(fn: ast.FunctionDef) -> tuple[list[tuple[str, str]], list[tuple[str, str]]]:
+def chdir_tables(fn: ast.FunctionDef, helpers: dict[str, ast.FunctionDef] | None = None) -> tuple[list[tuple[str, str]], list[tuple[str, str]]]:
     """(steps when `path is None`, steps otherwise) of the context manager"""
 
     def flat(stmts: list[ast.stmt], saved: set[str]) -> list[tuple[str, str]]:
@@ -379,7 +391,15 @@ def chdir_tables(fn: ast.FunctionDef) -> tuple[list[tuple[str, str]], list[tuple
             elif isinstance(st, ast.If):
                 out.append(("unknown", "nested if"))
             else:
-                out.append(("other", ast.unparse(st)[:40]))
+                # any other statement: its file-system effects (mkdir / open for writing / write_text / unlink / …, also those of
+                # module-level helpers it calls) are steps of their own, in evaluation order; a directory switch hidden in it too
+                f = Flatten(set(), helpers)
+                f.stmt(st)
+                eff = [(k, w) for k, w, _ in f.steps if k in EFFECTS or k == "osChdir"]
+                for k, w in eff:
+                    out.append(("mkdir", w) if k == "mkdir" else (("chdirTarget", w) if k == "osChdir" else ("fsEffect", w)))
+                if not eff:
+                    out.append(("other", ast.unparse(st)[:40]))
         return out
 
     body = [st for st in fn.body if not (isinstance(st, ast.Expr) and isinstance(st.value, ast.Constant))]
@@ -498,14 +518,15 @@ def refusals() -> list[tuple[str, str, str, list[str], bool, bool]]:
 def tables():
     tree = ast.parse(SRC.read_text())
     fns = {n.name: n for n in tree.body if isinstance(n, ast.FunctionDef)}
-    f = Flatten(literal_built_names(fns["generate"]))
+    helpers = {n: fn for n, fn in fns.items() if n not in ("generate", "chdir")}
+    f = Flatten(literal_built_names(fns["generate"]), helpers)
     f.block(fns["generate"].body)
     pre, loop, post, loop_iter = split_at_write_loop(f.steps)
     # an encode step is `perModule` when its loop iterates over the same expression as the write loop
     fix = lambda steps: [(k, w, ("perModule" if k == "encodeCheck" and t == "iter:" + loop_iter and loop_iter else ("" if k == "encodeCheck" else t))) for k, w, t in steps]
     pre, loop, post = fix(pre), fix(loop), fix(post)
     keys = key_exprs(fns["generate"], loop_iter) if loop else []
-    none_steps, some_steps = chdir_tables(fns["chdir"])
+    none_steps, some_steps = chdir_tables(fns["chdir"], helpers)
     decorated = any(dotted(d) in ("contextlib.contextmanager", "contextmanager") for d in fns["chdir"].decorator_list)
     return pre, loop, post, loop_iter, keys, none_steps, some_steps, decorated
 
@@ -519,6 +540,7 @@ KIND = {
 CKIND = {
     "saveCwd": ".saveCwd", "tryBegin": ".tryBegin", "finallyBegin": ".finallyBegin", "tryEnd": ".tryEnd",
     "chdirTarget": ".chdirTarget", "chdirSaved": ".chdirSaved", "yield": ".yield", "other": ".other", "unknown": ".unknown",
+    "mkdir": ".mkdir", "fsEffect": ".fsEffect",
 }
 
 
